@@ -319,6 +319,7 @@ type Tx struct {
 	Rollback   bool    `json:"rb,omitempty"`     // finish with ROLLBACK instead of COMMIT
 	Fill       byte    `json:"f"`                // content tag
 	NoWrite    bool    `json:"nowrite,omitempty"` // take the write lock and release it without writing anything
+	Holes      int     `json:"holes,omitempty"`   // rollback modes: that many new interior pages are never written (SQLite skips pages it allocated and freed again inside the transaction); they exist as zeroes
 }
 
 // TxResult reports what happened.
@@ -386,10 +387,18 @@ func (db *DBModel) buildImage(base *ref.Image, tx Tx, mode int) (*ref.Image, map
 		img.Set(w.Pgno, ref.MakePage(db.PageSize, w.Pgno, w.Ver, tx.Fill))
 		dirty[w.Pgno] = true
 	}
-	// Every page of an extended file is written at least once (SQLite leaves no
-	// holes except the lock page).
+	// Pages of an extended file are normally written once; SQLite skips the ones it
+	// allocated and freed again inside the transaction (PGHDR_DONT_WRITE), which then
+	// exist as zero-filled holes behind the pages it did write. The last page is
+	// always written (that is how the file is extended).
+	holes := tx.Holes
 	for p := base.N() + 1; p <= n; p++ {
 		if p == 1 || p == lock {
+			continue
+		}
+		if !dirty[p] && holes > 0 && p < n && p > 2 {
+			img.Set(p, make([]byte, db.PageSize))
+			holes--
 			continue
 		}
 		if !dirty[p] {
